@@ -4,6 +4,7 @@ import AkVerif.Lemmas.GhistWindow
 import AkVerif.Lemmas.GhistTags
 import AkVerif.Lemmas.GhistShown
 import AkVerif.Lemmas.GhistAnalyse
+import AkVerif.Lemmas.GhistRefs
 /-!
 # C06 — the history report attributes every matching commit to the right build per branch
 
@@ -212,6 +213,102 @@ example : tagBN none "build_7_release_1_1_failed".toList = .ok none := by decide
 example : tagBN none "build_x7_release_1_1_success".toList = .ok none := by decide
 example : tagBN none "v1.7".toList = .ok none := by decide
 
+/-! ## C06.refs — where the tags and the heads come from
+
+`ProjectRepo` learns the tags of the commits and the heads of the branches from `GitRepo.iter_refs`, which reads the git
+directory: one file per loose ref and the text file `packed-refs`.  The driver request `repd` carries such a directory
+(`RefStore`) and the model reads it (`storedHist`) before it makes the report.  `packedText hdrs recs nl` is the text git
+writes: comment lines, then per ref one line `<hexsha> <name>` and, for an annotated tag, a line `^<hexsha of the
+commit>`; `nl` says whether the last line ends with a line break. -/
+
+/-- every record of a packed-refs file is read — the first, the middle ones and the **last** one, whether or not a `^`
+line follows it and whether or not the file ends with a line break — in the order of the file, each with the hexsha of
+its commit (the `^` line wins), and nothing else is read: only the refs outside the wanted prefixes are left out -/
+theorem packed_refs_records (P : List (List Char)) (hdrs : List (List Char))
+    (hh : ∀ l ∈ hdrs, IsHeader l ∧ '\n' ∉ l) (recs : List PRec) (hwf : ∀ r ∈ recs, r.WF) (nl : Bool)
+    (loose : List (List Char × List Char)) :
+    packedRefs { packed := some (packedText hdrs recs nl), loose := loose } P =
+      .ok ((recs.filter (PRec.below P)).map PRec.entry) :=
+  packedLoop_packedText P hdrs hh recs hwf nl
+
+/-- what a git directory says about a ref: its file, or — when it has no file — its record in packed-refs -/
+def StoredAt (st : RefStore) (recs : List PRec) (n s : List Char) : Prop :=
+  (n, s) ∈ st.loose ∨ (n ∉ st.loose.map (·.1) ∧ ∃ r ∈ recs, r.name = n ∧ r.commit = s)
+
+section
+variable (st : RefStore) (hnd : (st.loose.map (·.1)).Nodup)
+  (hdrs : List (List Char)) (hh : ∀ l ∈ hdrs, IsHeader l ∧ '\n' ∉ l) (recs : List PRec) (hwf : ∀ r ∈ recs, r.WF)
+  (nl : Bool) (hp : st.packed = some (packedText hdrs recs nl) ∨ (st.packed = none ∧ recs = []))
+include hnd hh hwf hp
+
+/-- the refs `make_buildtags_map` / `make_branch_refs_map` get for a prefix are exactly the refs the directory stores
+below it, each with the hexsha of its commit: a loose ref with what its file says (an outdated record of the same name
+in packed-refs is not used), a packed one with its record — none is lost, none is invented -/
+theorem stored_refs_exact (pre : List Char) (hpre : ("refs/".toList).isPrefixOf pre = true) :
+    ∃ l, refsBelow st pre = .ok l ∧ ∀ n s, (n, s) ∈ l ↔ (pre.isPrefixOf n = true ∧ StoredAt st recs n s) := by
+  refine ⟨_, refsBelow_packedText st pre hpre hnd hdrs hh recs hwf nl hp, ?_⟩
+  intro n s
+  simp only [List.mem_append, List.mem_filter, List.mem_map, StoredAt, PRec.below, List.any_cons, List.any_nil,
+    Bool.or_false, Bool.not_eq_true', List.contains_eq_mem, decide_eq_false_iff_not, PRec.entry, Prod.mk.injEq]
+  constructor
+  · rintro (⟨h1, h2⟩ | ⟨r, ⟨⟨hr, hb⟩, hnl⟩, rfl, rfl⟩)
+    · exact ⟨h2, Or.inl h1⟩
+    · refine ⟨hb, Or.inr ⟨?_, r, hr, rfl, rfl⟩⟩
+      rintro ⟨x, hx, hxn⟩
+      exact hnl ⟨x, ⟨hx, by rw [hxn]; exact hb⟩, hxn⟩
+  · rintro ⟨hb, h1 | ⟨hnl, r, hr, rfl, rfl⟩⟩
+    · exact Or.inl ⟨h1, hb⟩
+    · refine Or.inr ⟨r, ⟨⟨hr, hb⟩, ?_⟩, rfl, rfl⟩
+      rintro ⟨x, ⟨hx, _⟩, hxn⟩
+      exact hnl ⟨x, hx, hxn⟩
+
+/-- builds are the tagged commits: the tag names the model gives the commit with hexsha `sha` (they are parsed into
+build numbers by `tagBN` afterwards) are exactly the names `t` whose ref `refs/tags/t` the directory stores at `sha` -/
+theorem stored_tag_names :
+    ∃ l, refsBelow st tagsPrefix = .ok l ∧
+      ∀ t sha, t ∈ tagNamesAt l sha ↔ StoredAt st recs (tagsPrefix ++ t) sha := by
+  obtain ⟨l, hl, hm⟩ := stored_refs_exact st hnd hdrs hh recs hwf nl hp tagsPrefix (by decide)
+  refine ⟨l, hl, ?_⟩
+  intro t sha
+  simp only [tagNamesAt, List.mem_map, List.mem_filter, decide_eq_true_eq]
+  constructor
+  · rintro ⟨⟨n, s⟩, ⟨hr, rfl⟩, rfl⟩
+    obtain ⟨hb, hst⟩ := (hm n s).mp hr
+    have : tagsPrefix ++ n.drop tagsPrefix.length = n :=
+      List.prefix_iff_eq_append.mp (List.isPrefixOf_iff_prefix.mp hb)
+    simpa [this] using hst
+  · intro hst
+    refine ⟨(tagsPrefix ++ t, sha), ⟨(hm _ _).mpr ⟨?_, hst⟩, rfl⟩, by simp⟩
+    exact List.isPrefixOf_iff_prefix.mpr (List.prefix_append _ _)
+
+end
+
+/-- non-vacuity: the usual comment line is a header, hexshas and ref names make well-formed records -/
+def exSha (c : Char) : List Char := List.replicate 40 c
+
+example : IsHeader "# pack-refs with: peeled fully-peeled sorted ".toList ∧
+    '\n' ∉ "# pack-refs with: peeled fully-peeled sorted ".toList :=
+  ⟨⟨" pack-refs with: peeled fully-peeled sorted".toList, by decide, by decide⟩, by decide⟩
+
+def exRecs : List PRec :=
+  [⟨"refs/remotes/origin/release/1.0".toList, exSha 'c', none⟩,
+   ⟨"refs/tags/build_10_release_1_0_success".toList, exSha 'b', none⟩,
+   ⟨"refs/tags/build_9_release_1_0_success".toList, exSha '0', some (exSha 'a')⟩]
+
+example : ∀ r ∈ exRecs, r.WF := by
+  intro r hr
+  simp only [exRecs, List.mem_cons, List.not_mem_nil, or_false] at hr
+  rcases hr with rfl | rfl | rfl <;>
+    exact ⟨by decide, ⟨_, _, rfl, by decide, by decide⟩, by decide, by decide,
+      by intro p hp; first | (cases hp; exact ⟨by decide, by decide⟩) | cases hp⟩
+
+/-- the build tag in the last record, annotated, no line break after its `^` line: it is read, with the commit of the
+`^` line -/
+example : refsBelow { packed := some (packedText ["# pack-refs with: peeled fully-peeled sorted ".toList] exRecs false),
+                      loose := [] } tagsPrefix =
+    .ok [("refs/tags/build_10_release_1_0_success".toList, exSha 'b'),
+         ("refs/tags/build_9_release_1_0_success".toList, exSha 'a')] := by decide +kernel
+
 /-! ## the report and the branches
 
 `rgraph h pl = .ok g` : the graph the report is printed from.  `g.all` holds the result of every release/master
@@ -220,6 +317,11 @@ the branches that have no build.  `IsBranch h g j b B` : `B` is what the report 
 `lower h j` are the branches sorted below it. -/
 
 def lower {π} (h : Hist π) (j : Nat) : List Branch := (branchesOf h).take j
+
+/-- no build tag of the repository has the number of a pseudo build ("not merged" 9999.9999.9999, "not built"
+8888.8888.8888): the printed report recognises the pseudo builds by these numbers -/
+def NoFakeTags {π} (h : Hist π) : Prop :=
+  ∀ (c : Nat) (cm : Commit π), h.commits[c]? = some cm → fakeNM ∉ cm.tags ∧ fakeNB ∉ cm.tags
 
 def IsBranch {π β} (h : Hist π) (g : Graph β) (j : Nat) (b : Branch) (B : RepBranch) : Prop :=
   (branchesOf h)[j]? = some b ∧ ∃ rb, g.all[j]? = some rb ∧ B = repBranch g.rcs rb
@@ -445,29 +547,60 @@ theorem build_title :
     simp only [buildNums, hne, Bool.and_false, Bool.false_eq_true, if_false] at h3
     exact ⟨ht, head_sorted_min h3⟩
 
-/-- **C06.pseudo_title** — an entry of the branch is titled "not merged" exactly when it is the pseudo build: it has no
-commit of its own and carries the "not merged" number; every other entry has a build commit -/
-theorem pseudo_title :
-    ∀ bd ∈ B.builds, (bd.notMerged = true → bd.commit = none ∧ bd.bn = fakeNM) ∧
-      (bd.notMerged = false → ∃ e, bd.commit = some e) := by
+/-- **C06.pseudo_title** — which entry carries which title.  The printed report decides the title from the build number:
+"- not merged -" for `fakeNM`, "- not built -" for `fakeNB`, the number otherwise.  When no tag of the repository has
+one of these two numbers (`NoFakeTags`; a tag 9999.9999.9999 would be titled "- not merged -", a tagged build
+8888.8888.8888 "- not built -"), an entry is titled "not merged" exactly when it is the pseudo build — which has no
+commit of its own — every other entry has a build commit, and an entry is titled "not built" exactly when its build
+commit carries no build tag (by `build_title` it is the head of the branch then) -/
+theorem pseudo_title (hnf : NoFakeTags h) :
+    ∀ bd ∈ B.builds, (bd.notMerged = true ↔ bd.bn = fakeNM) ∧ (bd.notMerged = true → bd.commit = none) ∧
+      (bd.notMerged = false → ∃ e, bd.commit = some e) ∧
+      (bd.bn = fakeNB ↔ ∃ e cm, bd.commit = some e ∧ h.commits[e]? = some cm ∧ cm.tags = []) := by
+  have hbt := build_title h hT hW pl g hg j b B hB
   have hk := rgraph_kinds hT hg
-  have hgn := rgraph_nw hT hW hg
   obtain ⟨hb, rb, hrb, rfl⟩ := hB
-  have hs := ((rgraph_sem hT hgn).2 j b rb hb hrb).1
   intro bd hbd
+  have hne : fakeNB ≠ fakeNM := by decide
   obtain ⟨bd0, hbd0, rfl⟩ := (mem_repBranch_builds g.rcs rb bd).mp hbd
-  constructor
-  · intro hnm
+  have hpseudo : (repBuild g.rcs bd0).notMerged = true → (repBuild g.rcs bd0).commit = none ∧ (repBuild g.rcs bd0).bn = fakeNM := by
+    intro hnm
     have hnone : bd0.rcommit = none := by
       simp only [repBuild] at hnm; cases hx : bd0.rcommit <;> simp_all
     rcases hk rb (List.mem_of_getElem? hrb) bd0 hbd0 with ⟨h1, _⟩ | ⟨_, h2⟩
     · rw [hnone] at h1; cases h1
     · exact ⟨by simp [repBuild, hnone], h2⟩
+  have hreal : (repBuild g.rcs bd0).notMerged = false → (repBuild g.rcs bd0).bn ≠ fakeNM := by
+    intro hnm
+    obtain ⟨e, cm, _, hcm, h1 | h1⟩ := hbt _ hbd hnm
+    · rw [h1.2.2]; exact hne
+    · intro heq
+      exact (hnf e cm hcm).1 (heq ▸ h1.2.1)
+  refine ⟨⟨fun hnm => (hpseudo hnm).2, ?_⟩, fun hnm => (hpseudo hnm).1, ?_, ?_⟩
+  · intro hbn
+    cases hnm : (repBuild g.rcs bd0).notMerged with
+    | true => rfl
+    | false => exact absurd hbn (hreal hnm)
   · intro hnm
-    have hsome : bd0.rcommit.isSome = true := by
-      simp only [repBuild] at hnm; cases hx : bd0.rcommit <;> simp_all
-    obtain ⟨hrc0, rc, hrc, _, _⟩ := hs.buildSpec bd0 hbd0 hsome
-    exact ⟨rc.commit, by simp [repBuild, hrc0, hrc]⟩
+    obtain ⟨e, _, he, _⟩ := hbt _ hbd hnm
+    exact ⟨e, he⟩
+  · constructor
+    · intro hbn
+      cases hnm : (repBuild g.rcs bd0).notMerged with
+      | true => rw [(hpseudo hnm).2] at hbn; exact absurd hbn.symm hne
+      | false =>
+        obtain ⟨e, cm, he, hcm, h1 | h1⟩ := hbt _ hbd hnm
+        · exact ⟨e, cm, he, hcm, h1.1⟩
+        · exact absurd (hbn ▸ h1.2.1) (hnf e cm hcm).2
+    · rintro ⟨e, cm, he, hcm, ht⟩
+      cases hnm : (repBuild g.rcs bd0).notMerged with
+      | true => rw [(hpseudo hnm).1] at he; cases he
+      | false =>
+        obtain ⟨e', cm', he', hcm', h1 | h1⟩ := hbt _ hbd hnm
+        · exact h1.2.2
+        · rw [he] at he'; cases he'
+          rw [hcm] at hcm'; cases hcm'
+          exact absurd ht h1.1
 
 end
 
@@ -499,6 +632,11 @@ def exHist : Hist Unit :=
 example : exHist.Topo := Hist.topo_of_topoB _ (by decide)
 
 example : exHist.InWindow := Hist.inWindow_of_B (by decide)
+
+example : NoFakeTags exHist := by
+  intro c cm hc
+  have hall : ∀ cm ∈ exHist.commits, fakeNM ∉ cm.tags ∧ fakeNB ∉ cm.tags := by decide
+  exact hall cm (List.mem_of_getElem? hc)
 
 example : report exHist Plug.none = .ok
     [⟨"master".toList, [⟨true, fakeNM, none, [5]⟩, ⟨false, fakeNB, some 4, [4]⟩,
